@@ -8,6 +8,6 @@ if ! git diff --quiet; then echo "repo dirty"; exit 2; fi
 git apply --3way /verif/seeded/$seed/patch.diff 2>/dev/null || { git reset -q --hard HEAD; git apply /verif/seeded/$seed/patch.diff; } || { echo "patch does not apply"; git reset -q --hard HEAD; exit 2; }
 git reset -q
 for p in $props; do
-  (cd /verif && ./check $p > /tmp/try_seed.out 2>&1; echo "[$seed] $p exit=$?"; grep -E "VIOLATION|ANALYSIS-ERROR|^antismash" /tmp/try_seed.out | cut -c1-300)
+  (cd /verif && ./check $p --no-evidence > /tmp/try_seed.out 2>&1; echo "[$seed] $p exit=$?"; grep -E "VIOLATION|ANALYSIS-ERROR|^antismash" /tmp/try_seed.out | cut -c1-300)
 done
 git checkout -- .
